@@ -128,10 +128,12 @@ func (t *TokenBucketFilter) run() {
 
 			return
 		case chunk := <-t.c:
-			if time.Since(lastRefill) > t.minRefillDuration {
-				t.refillTokens(time.Since(lastRefill))
-				lastRefill = time.Now()
-			}
+			// Refill for exactly the time that has passed since the last refill. Crediting
+			// a whole minRefillDuration-sized window at once would let a full burst through
+			// right after the previous one (2*burst within a millisecond).
+			now := time.Now()
+			t.refillTokens(now.Sub(lastRefill))
+			lastRefill = now
 			t.queue.push(chunk)
 			t.drainQueue()
 		}
@@ -139,15 +141,14 @@ func (t *TokenBucketFilter) run() {
 }
 
 func (t *TokenBucketFilter) refillTokens(dt time.Duration) {
-	m := 1000.0 / float64(dt.Milliseconds())
 	t.mutex.Lock()
 	defer t.mutex.Unlock()
-	add := (float64(t.rate) / m) / 8.0
+	add := float64(t.rate) * dt.Seconds() / 8.0
 	t.currentTokensInBucket = math.Min(float64(t.maxBurst), t.currentTokensInBucket+add)
 	t.log.Tracef(
-		"add=(%v / %v) / 8 = %v, currentTokensInBucket=%v, maxBurst=%v",
+		"add=(%v * %v) / 8 = %v, currentTokensInBucket=%v, maxBurst=%v",
 		t.rate,
-		m,
+		dt.Seconds(),
 		add,
 		t.currentTokensInBucket,
 		t.maxBurst,
